@@ -86,6 +86,11 @@ TRUSTED = [
     "and its theorems hold for ANY offsets), that a PathPoint outside its constraints makes asn1tools raise or emit an "
     "undecodable CAM (observed on the seeded tree), copy.deepcopy's protocol for tuple subclasses (regenerated fact "
     "CHOICE_DEEPCOPYABLE from the class definition)",
+    "DENM repetitions: Python's object sharing - `copy.deepcopy` detaches the nested records, `dict()` / `.copy()` / "
+    "`copy.copy` share them (the model's `shareOf`, checked against the real code per scenario); the repetition thread is "
+    "driven as a sequentialised schedule (its body runs once the caller is back from request_denm_sending, the caller acts "
+    "inside each `time.sleep`): a pre-emption INSIDE one repetition (between reading the position and encoding it) is not "
+    "explored; the cadence / count / action ids of the repetitions are C17's subject",
 ]
 ASSUMPTIONS = [
     "reports within the stated ranges: lat -90..90, lon -180..180, altHAE -1000..10000 m, speed 0..200 m/s, track 0..360, "
@@ -99,6 +104,9 @@ ASSUMPTIONS = [
     "beyond the largest expressible one (131071 units) may be sent as `unavailable` (the element has no outOfRange code)",
     "the LDM adapter's add_provider_data_to_ldm does not raise (send_next_vam feeds it BEFORE the VAM is encoded, unguarded; "
     "exercised with a stub and with the repository's adapters over a real dictionary LDM)",
+    "DENM repetitions: 'the values the service intended' = the event position the request was MADE with (the content of the "
+    "caller's dictionary at the call of request_denm_sending), whatever the caller does with that dictionary afterwards; the "
+    "dictionary is well-formed and within the ASN.1 constraints at the call",
 ]
 
 ITS_EPOCH_MS = 1072915200000
